@@ -817,6 +817,7 @@ func runC03(c *Ctx) {
 	ruleAdopt(c, p, "C03.adopt")
 	ruleOpenCodes(c, p, "C03.open-codes")
 	ruleInferTables(c, p, "C03")
+	ruleStringIdioms(c, p, "C03.idioms")
 	if rr := resolveDo(c, p); rr != nil {
 		ruleRetry(c, p, rr, "C03.retry")
 	}
